@@ -312,7 +312,8 @@ def err_term(name):
 
 
 # ------------------------------------------------------------------ implicit routing: http path templates
-FIELDS = ["name", "parent", "table_name", "sub.name", "sub.inner.id", "class", "type", "sub.class", "sub.type", "resource", "book.shelf"]
+FIELDS = ["name", "parent", "table_name", "sub.name", "sub.inner.id", "class", "type", "sub.class", "sub.type", "resource", "book.shelf",
+          "oauth2_client_id", "ipv4_range", "name_v2", "book.isbn13", "v2.name", "v1beta1.sub2.id3", "x9"]      # digits in any component
 PATS = ["*", "**", "shelves/*", "projects/*/locations/*", "a/*/b/**", "x=y"]
 
 
